@@ -365,6 +365,7 @@ func check(id, tier string) int {
 			"max_deviation_bound":           tot.MaxBound,
 			"max_choice_depth":              tot.MaxDepth,
 			"distinct_outcomes":             len(tot.Outcomes),
+			"outcome_counts":                topOutcomes(tot.Outcomes, 60),
 			"horizon_hits":                  tot.Horizon,
 			"capped":                        tot.Capped,
 			"instrumented_accesses":         tot.Accesses,
@@ -388,6 +389,31 @@ func check(id, tier string) int {
 		return 1
 	}
 	return 0
+}
+
+// topOutcomes lists the most frequent observed outcome classes (all of them when there are few).
+func topOutcomes(m map[string]int, n int) map[string]int {
+	type kv struct {
+		k string
+		v int
+	}
+	var l []kv
+	for k, v := range m {
+		l = append(l, kv{k, v})
+	}
+	sort.Slice(l, func(i, j int) bool { return l[i].v > l[j].v || (l[i].v == l[j].v && l[i].k < l[j].k) })
+	out := map[string]int{}
+	for i, e := range l {
+		if i >= n {
+			break
+		}
+		k := e.k
+		if len(k) > 160 {
+			k = k[:160]
+		}
+		out[k] = e.v
+	}
+	return out
 }
 
 func max1(n int) int {
